@@ -36,12 +36,19 @@ def run(tier, seed):
             items.append(('gen:%d|direct' % s, src, [lvl]))
             items.append(('gen:%d|indirect' % s, src, [lvl, '-findirect-start-ptr']))
 
+    for i in range(10 if quick else 80):
+        s = rng.randrange(1 << 30)
+        src = genprog.gen_break_program(s)[1]
+        lvl = rng.choice(['-O0', '-O1', '-O2', '-O3'])
+        items.append(('brk:%d|direct' % s, src, [lvl]))
+        items.append(('brk:%d|indirect' % s, src, [lvl, '-findirect-start-ptr']))
+
     def extra_inputs(p):
         # two longer inputs for the adversarial splits (every cut point, all ones, random)
         return runner.walk_inputs(p, 2, 40, rng)
 
     out = ctrace.run_pipeline(chk, items, rng, seed, nwalks=4 if quick else 10, maxlen=8 if quick else 10, chunk_mode='all',
-                              chunk_limit=40 if quick else 600, extra_inputs=extra_inputs, keep_records=True)
+                              chunk_limit=40 if quick else 600, extra_inputs=extra_inputs, keep_records=True, cover=10 if quick else 24)
     try:
         # direct comparison of chunking-independent summaries
         groups = collections.defaultdict(list)
@@ -69,6 +76,7 @@ def run(tier, seed):
         chk.coverage = {
             'states': out['stats']['states'], 'transitions': out['stats']['transitions'],
             'traces_validated_against_impl': out['counts']['ACCEPT'],
+            **ctrace.cover_cov(out),
             'samples': ctrace.sample_cases(out, 3),
             'programs': len([p for p in out['progs'] if p.bin]), 'inputs_with_several_chunkings': ngroups,
             'chunkings_recorded': sum(len(v) for v in groups.values()), 'max_chunks_in_a_run': max(nparts) if nparts else 0,
